@@ -74,6 +74,8 @@ contract(
     ),
     verify=False,
     assumed=True,
+    bounded=("bounded/transfer_faults.py", 40, 500),
+    props=["C04", "C11"],
     doc="[to be verified against ObjectDB.add] every requested object is placed in dest or returned as failed; nothing else changes",
 )
 
